@@ -248,7 +248,7 @@ def discharge(tasks, timeout_ms=60000, seed=0, cvc5_fallback=True, cvc5_recheck=
 
     def budget(oid):
         if expect[oid] != "unsat":
-            return min(timeout_ms, 8000)   # reachability covers are sanity checks: unknown is not a failure
+            return min(timeout_ms, 3000)   # reachability covers are sanity checks: unknown is not a failure (phase 1 only)
         if oid.startswith("canary:"):
             return min(timeout_ms, 20000)  # a canary only needs one refuted obligation
         return timeout_ms
